@@ -15,6 +15,7 @@ import (
 	"github.com/fsnotify/fsnotify"
 
 	"github.com/bluenviron/mediamtx/internal/confwatcher"
+	"github.com/bluenviron/mediamtx/internal/core"
 	"github.com/bluenviron/mediamtx/internal/zzverif/vcommon"
 	"github.com/bluenviron/mediamtx/internal/zzverif/vexplore"
 	"github.com/bluenviron/mediamtx/zzverif/vsched"
@@ -27,11 +28,12 @@ type ev struct {
 
 // op kinds
 const (
-	opWrite  = "write"  // rewrite the file in place (truncate + write)
-	opRemove = "remove" // delete it
-	opCreate = "create" // create it (after a remove) and write
-	opRename = "rename" // write a temp file and rename it over the watched file (editors, atomic save)
-	opTouchO = "other"  // write an unrelated file in the same directory
+	opWrite   = "write"   // rewrite the file in place (truncate + write)
+	opRemove  = "remove"  // delete it
+	opCreate  = "create"  // create it (after a remove) and write
+	opRename  = "rename"  // write a temp file and rename it over the watched file (editors, atomic save)
+	opTouchO  = "other"   // write an unrelated file in the same directory
+	opRestore = "restore" // rename an older version (modification time one hour in the past) over the watched file (mv backup conf)
 )
 
 var opKinds = []string{opWrite, opRemove, opCreate, opRename, opTouchO}
@@ -47,16 +49,46 @@ var symKinds = []string{opSwap, opSwapRm, opUnlink, opTouchO}
 
 var gaps = []time.Duration{0, 5 * time.Millisecond, 500 * time.Millisecond, 1500 * time.Millisecond}
 
+// coreMode: the file holds real configurations (one line of flow-style YAML, every server disabled, one path
+// p<serial>) because the consumer is the real Core.
+var coreMode bool
+
+const coreConfFmt = "{logLevel: error, rtsp: no, rtmp: no, hls: no, webrtc: no, srt: no, moq: no, api: no, metrics: no, pprof: no, playback: no, paths: {p%d: {}}}"
+
+// stamp gives a file a modification time that is a function of the virtual clock (the real clock must not leak
+// into an execution): base + virtual now. Two writes at the same virtual instant get the same time, as on a file
+// system with coarse timestamps. Not used outside explorations (conformance runs against the real fsnotify).
+var mtimeBase = time.Date(2024, 1, 1, 0, 0, 0, 0, time.UTC)
+
+func stamp(path string, back time.Duration) {
+	if !vsched.Active() {
+		return
+	}
+	t := mtimeBase.Add(vsched.VirtualNow() - back)
+	os.Chtimes(path, t, t)
+}
+
+func contentOf(serial int) string {
+	if coreMode {
+		return fmt.Sprintf(coreConfFmt, serial)
+	}
+	if serial == 0 {
+		return "content-init"
+	}
+	return fmt.Sprintf("content-%d", serial)
+}
+
 // perform does the operation for real in dir and returns the events the model says it produces.
 func perform(dir, kind string, serial int) []ev {
 	f := filepath.Join(dir, "conf.yml")
-	content := fmt.Sprintf("content-%d", serial)
+	content := contentOf(serial)
 	switch kind {
 	case opWrite:
 		if _, err := os.Stat(f); err != nil {
 			return nil // nothing to rewrite
 		}
 		os.WriteFile(f, []byte(content), 0o644)
+		stamp(f, 0)
 		return []ev{{"conf.yml", fsnotify.Write}}
 	case opRemove:
 		if os.Remove(f) != nil {
@@ -68,10 +100,12 @@ func perform(dir, kind string, serial int) []ev {
 			return nil
 		}
 		os.WriteFile(f, []byte(content), 0o644)
+		stamp(f, 0)
 		return []ev{{"conf.yml", fsnotify.Create}, {"conf.yml", fsnotify.Write}}
 	case opRename:
 		t := filepath.Join(dir, "conf.yml.tmp")
 		os.WriteFile(t, []byte(content), 0o644)
+		stamp(t, 0)
 		os.Rename(t, f)
 		return []ev{{"conf.yml.tmp", fsnotify.Create}, {"conf.yml.tmp", fsnotify.Write}, {"conf.yml.tmp", fsnotify.Rename}, {"conf.yml", fsnotify.Create}}
 	case opSwap, opSwapRm:
@@ -79,6 +113,7 @@ func perform(dir, kind string, serial int) []ev {
 		target := filepath.Join("data", fmt.Sprintf("v%d.yml", serial))
 		os.MkdirAll(filepath.Join(dir, "data"), 0o755)
 		os.WriteFile(filepath.Join(dir, target), []byte(content), 0o644)
+		stamp(filepath.Join(dir, target), 0)
 		t := filepath.Join(dir, "conf.yml.lnk")
 		os.Remove(t)
 		if err := os.Symlink(target, t); err != nil {
@@ -96,6 +131,17 @@ func perform(dir, kind string, serial int) []ev {
 			return nil
 		}
 		return []ev{{"conf.yml", fsnotify.Remove}}
+	case opRestore:
+		t := filepath.Join(dir, "conf.yml.bak")
+		os.WriteFile(t, []byte(content), 0o644)
+		if vsched.Active() {
+			stamp(t, time.Hour)
+		} else {
+			old := time.Now().Add(-time.Hour)
+			os.Chtimes(t, old, old)
+		}
+		os.Rename(t, f)
+		return []ev{{"conf.yml.bak", fsnotify.Create}, {"conf.yml.bak", fsnotify.Write}, {"conf.yml.bak", fsnotify.Chmod}, {"conf.yml.bak", fsnotify.Rename}, {"conf.yml", fsnotify.Create}}
 	case opTouchO:
 		_, statErr := os.Stat(filepath.Join(dir, "other.txt"))
 		os.WriteFile(filepath.Join(dir, "other.txt"), []byte(content), 0o644)
@@ -110,7 +156,7 @@ func perform(dir, kind string, serial int) []ev {
 // conformance: the model's events for each operation vs. the real fsnotify (as a set of (name, op bits)).
 func conformance() int {
 	n := 0
-	for _, seq := range [][]string{{opWrite}, {opRemove}, {opRemove, opCreate}, {opRename}, {opTouchO}, {opTouchO, opTouchO},
+	for _, seq := range [][]string{{opWrite}, {opRemove}, {opRemove, opCreate}, {opRename}, {opTouchO}, {opTouchO, opTouchO}, {opRestore},
 		{"sym", opSwap}, {"sym", opSwapRm}, {"sym", opUnlink}, {"sym", opUnlink, opSwap}, {"sym", opSwap, opSwapRm}} {
 		dir, _ := os.MkdirTemp("", "verif-c38-conf-")
 		if seq[0] == "sym" {
@@ -136,7 +182,7 @@ func conformance() int {
 		for {
 			select {
 			case e := <-w.Events:
-				for _, b := range []fsnotify.Op{fsnotify.Create, fsnotify.Write, fsnotify.Remove, fsnotify.Rename} {
+				for _, b := range []fsnotify.Op{fsnotify.Create, fsnotify.Write, fsnotify.Remove, fsnotify.Rename, fsnotify.Chmod} {
 					if e.Op&b != 0 {
 						real = append(real, filepath.Base(e.Name)+":"+b.String())
 					}
@@ -170,7 +216,7 @@ func conformance() int {
 // setupSym: conf.yml -> data/v0.yml
 func setupSym(dir string) {
 	os.MkdirAll(filepath.Join(dir, "data"), 0o755)
-	os.WriteFile(filepath.Join(dir, "data", "v0.yml"), []byte("content-init"), 0o644)
+	os.WriteFile(filepath.Join(dir, "data", "v0.yml"), []byte(contentOf(0)), 0o644)
 	if err := os.Symlink(filepath.Join("data", "v0.yml"), filepath.Join(dir, "conf.yml")); err != nil {
 		panic(err)
 	}
@@ -181,8 +227,9 @@ type step struct {
 	gap  time.Duration // virtual time before the operation
 }
 
-func body(steps []step, sym bool) func() {
+func body(steps []step, sym bool, withCore bool) func() {
 	return func() {
+		coreMode = withCore
 		dir, err := os.MkdirTemp("", "verif-c38-")
 		if err != nil {
 			panic(err)
@@ -192,7 +239,12 @@ func body(steps []step, sym bool) func() {
 		if sym {
 			setupSym(dir)
 		} else {
-			os.WriteFile(f, []byte("content-init"), 0o644)
+			os.WriteFile(f, []byte(contentOf(0)), 0o644)
+			stamp(f, 0)
+		}
+		if withCore {
+			coreBody(dir, f, steps)
+			return
 		}
 		w := &confwatcher.ConfWatcher{FilePath: f}
 		if err := w.Initialize(); err != nil {
@@ -239,6 +291,52 @@ func body(steps []step, sym bool) func() {
 	}
 }
 
+// coreBody: the consumer of the watcher's signals is the real core.Core (created from the file by core.New, every
+// server disabled); what it has loaded is read from the configuration it runs with at quiescence.
+func coreBody(dir, f string, steps []step) {
+	p, ok := core.New([]string{f})
+	if !ok {
+		vsched.Fail("HARNESS: core.New failed")
+		return
+	}
+	fw := vsched.LastFWatcher()
+	vsched.Advance(2 * time.Second)
+	for i, st := range steps {
+		if st.gap > 0 {
+			vsched.Advance(st.gap)
+		}
+		evs := perform(dir, st.kind, i+1)
+		vsched.Log("op %s", st.kind)
+		for _, e := range evs {
+			if core.VerifC38Done(p) {
+				break // nobody reads the events any more
+			}
+			vsched.Select(false, vsched.S(fw.Events, fsnotify.Event{Name: filepath.Join(dir, e.name), Op: e.op}), vsched.R(core.VerifC38DoneCh(p)))
+		}
+	}
+	vsched.WaitIdle()
+	if core.VerifC38Done(p) {
+		vsched.Log("server exited")
+	} else {
+		names := core.VerifC38ConfPaths(p)
+		for _, n := range names {
+			var k int
+			if _, err := fmt.Sscanf(n, "p%d", &k); err == nil {
+				vsched.Log("loaded %s", contentOf(k))
+			}
+		}
+	}
+	if b, err := os.ReadFile(f); err == nil {
+		vsched.Log("final %s", b)
+	} else {
+		vsched.Log("final <absent>")
+	}
+	p.Close()
+	vsched.Log("end")
+}
+
+var contentOfCore0 = fmt.Sprintf(coreConfFmt, 0)
+
 func check(o *vsched.Outcome) (string, string) {
 	tr := strings.Join(o.Trace, ", ")
 	if o.Failure != "" {
@@ -248,6 +346,16 @@ func check(o *vsched.Outcome) (string, string) {
 		return "incomplete", "scenario did not run to its end | " + tr
 	}
 	loaded := "content-init" // what the server started with
+	for _, l := range o.Trace {
+		if l == "server exited" {
+			// the Core exits when the file is absent (or invalid) at the moment it reloads it: designed behaviour,
+			// outside the statement (a server that is gone loads nothing); counted by the outcome statistics
+			return "", ""
+		}
+		if strings.HasPrefix(l, "final {") || strings.HasPrefix(l, "loaded {") {
+			loaded = contentOfCore0
+		}
+	}
 	final := ""
 	changed := false
 	for _, l := range o.Trace {
@@ -283,7 +391,7 @@ func main() {
 		if len(steps) == 4 {
 			tb = 1 // length 4 (reduced alphabet) is explored with one deviation only
 		}
-		scn = append(scn, &vexplore.Scenario{Name: "file::" + strings.Join(parts, ","), Desc: "operations on a regular watched file, with virtual gaps", Body: body(steps, false), Check: check,
+		scn = append(scn, &vexplore.Scenario{Name: "file::" + strings.Join(parts, ","), Desc: "operations on a regular watched file, with virtual gaps", Body: body(steps, false, false), Check: check,
 			QuickBound: 1, ThoroughBound: tb, Horizon: 5000, Quiet: true})
 	}
 	addSym := func(steps []step, thoroughOnly bool) {
@@ -291,7 +399,7 @@ func main() {
 		for _, s := range steps {
 			parts = append(parts, fmt.Sprintf("%s@+%v", s.kind, s.gap))
 		}
-		scn = append(scn, &vexplore.Scenario{Name: "symlink::" + strings.Join(parts, ","), Desc: "the watched path is a symbolic link (conf.yml -> data/vN.yml): swaps of the link, with and without deletion of the old target, with virtual gaps", Body: body(steps, true), Check: check,
+		scn = append(scn, &vexplore.Scenario{Name: "symlink::" + strings.Join(parts, ","), Desc: "the watched path is a symbolic link (conf.yml -> data/vN.yml): swaps of the link, with and without deletion of the old target, with virtual gaps", Body: body(steps, true, false), Check: check,
 			QuickBound: 1, ThoroughBound: 2, Horizon: 5000, Quiet: true, ThoroughOnly: thoroughOnly})
 	}
 	thorough := false
@@ -373,6 +481,37 @@ func main() {
 		}
 	}
 	recS(nil)
+	// Core mode: the real core.Core consumes the signals. Lengths 1..2 (thorough: 3, gaps {5 ms, 1.5 s}) over the
+	// operations on a regular file plus "restore": an older version (modification time in the past) renamed over it
+	addCore := func(steps []step, thoroughOnly bool) {
+		var parts []string
+		for _, s := range steps {
+			parts = append(parts, fmt.Sprintf("%s@+%v", s.kind, s.gap))
+		}
+		scn = append(scn, &vexplore.Scenario{Name: "core::" + strings.Join(parts, ","), Desc: "regular watched file; the consumer of the watcher's signals is the real core.Core (every server disabled): at quiescence it must run with the configuration the file holds", Body: body(steps, false, true), Check: check,
+			QuickBound: 1, ThoroughBound: 1, Horizon: 20000, Quiet: true, ThoroughOnly: thoroughOnly, Bg: []string{"dumper.go"}, BgTimers: []string{"recordcleaner/cleaner.go"}})
+	}
+	var recC func(prefix []step)
+	recC = func(prefix []step) {
+		if len(prefix) > 0 {
+			addCore(prefix, len(prefix) == 3)
+		}
+		if len(prefix) == 3 {
+			return
+		}
+		for _, k := range []string{opWrite, opRemove, opCreate, opRename, opRestore} {
+			for _, g := range []time.Duration{5 * time.Millisecond, 1500 * time.Millisecond} {
+				if len(prefix) == 0 {
+					g = 0
+				}
+				recC(append(append([]step{}, prefix...), step{k, g}))
+				if len(prefix) == 0 {
+					break
+				}
+			}
+		}
+	}
+	recC(nil)
 	extra := func(r *vcommon.Run) (int64, int64, int64, string) {
 		r.Set("fsnotify_conformance_runs", validated)
 		return 0, 0, 0, fmt.Sprintf("scenarios = all sequences of <=%d operations over %v (regular file) and of <=3 operations over {swap, swaprm, unlink, other} (watched path is a symbolic link) with virtual gaps %v before each; the event model was validated against the real fsnotify in %d runs", maxLen, opKinds, gaps, validated)
